@@ -112,6 +112,16 @@ def probe_variant(ck):
     return flags
 
 
+def fuse_lits(toks):
+    out = []
+    for w in toks.split(" "):
+        if w.startswith("L") and out and out[-1].startswith("L"):
+            out[-1] += w[1:]
+        else:
+            out.append(w)
+    return " ".join(out)
+
+
 def norm_dump(d):
     """the model has no wildcard numbering"""
     import re
@@ -363,8 +373,8 @@ def tie_on_asts(ck, exe_model, sexps, in_image, label):
         if istatus == "PANIC":
             ck.count(label + ":both_panic")
             continue
-        # 3. tokens
-        if itoks != mtoks:
+        # 3. tokens (how literal text is cut into literal tokens is not meaningful: fuse them)
+        if fuse_lits(itoks) != fuse_lits(mtoks):
             ck.obligation("correspondence:print-tokens", "correspondence", False,
                           "tree  %s\nimpl  %s\nmodel %s\ntext  %s" % (s[:600], itoks[:600], mtoks[:600], iprinted[:300]))
             continue
@@ -413,8 +423,22 @@ def tie_on_parse(ck, exe_model, sources, label):
             ck.count(label + ":agree")
 
 
+def raise_stack_limit():
+    """the extracted parser recurses as deep as its input is long"""
+    import resource
+    soft, hard = resource.getrlimit(resource.RLIMIT_STACK)
+    want = 4 << 30
+    if hard != resource.RLIM_INFINITY:
+        want = min(want, hard)
+    try:
+        resource.setrlimit(resource.RLIMIT_STACK, (want, hard))
+    except (ValueError, OSError):
+        pass
+
+
 def run(ck):
     tier = ck.tier
+    raise_stack_limit()
     tables = gen_table(ck)
     ck.coq("Props.C14", extra_targets=["Surface/Io.vo"], clean=False)
     ok = ck.harness(["c14"])
@@ -435,13 +459,16 @@ def run(ck):
     if cor_sx:
         tie_on_asts(ck, exe_model, cor_sx, True, "corpus-ast")
 
+    ck.log("corpus done")
     # ---- every .ncl file of the repository: direct oracle with evaluation, runtime printer, parser tie
     files = repo_sources()
     ck.coverage["repo_files"] = len(files)
     src_cases = [(f, os.path.dirname(f), s) for f, s in files]
     nparse = oracle_on_sources(ck, src_cases, "er", "repo")
     ck.coverage["repo_files_parsed"] = nparse
+    ck.log("repo oracle done")
     tie_on_parse(ck, exe_model, files, "repo-parse")
+    ck.log("repo parser tie done")
 
     # ---- the same files under token-level mutation
     per_file = 3 if tier == "quick" else 60
@@ -453,6 +480,7 @@ def run(ck):
         for k in range(per_file):
             muts.append(("%s#mut%d" % (f, k), os.path.dirname(f), cc.mutate(r, s)))
     oracle_on_sources(ck, muts, "e" if tier == "thorough" else "", "mutated")
+    ck.log("mutants done")
     if tier == "thorough":
         tie_on_parse(ck, exe_model, [(o, s) for o, _, s in muts[:20000]], "mutated-parse")
 
@@ -464,6 +492,7 @@ def run(ck):
         g = cc.Gen(rng.fork(), primops, max_depth=rng.choice([2, 3, 3, 4, 4, 5]))
         sexps.append(cc.show(g.program()))
     tie_on_asts(ck, exe_model, sexps, True, "generated")
+    ck.log("generated done")
     # ---- and outside of it: ties only
     n2 = 600 if tier == "quick" else 10000
     outs = []
@@ -486,6 +515,7 @@ def run(ck):
 
 
 def replay(ck, path):
+    raise_stack_limit()
     obj = json.load(open(path))
     tables = gen_table(ck)
     ok = ck.harness(["c14"])
